@@ -50,7 +50,7 @@ def plan(tier, seed):
 
 def floors(tier):
     return {'evaluations': 20000, 'distinct_nontrivial': 10000, 'comment_markers_checked': 20000,
-            'formula_markers_checked': 20000, 'discard_markers_checked': 5000, 'histkeys:position': 10,
+            'formula_markers_checked': 20000, 'discard_markers_checked': 5000, 'histkeys:position': 12,
             'histkeys:math_env': 15, 'histkeys:option_cell': 24, 'k2_witness_checked': 1}
 
 
@@ -109,10 +109,21 @@ class Gen(object):
             b = self.block(depth + 1, dict(ctx, position='item'))
             return '\\begin{itemize}\\item %s\n\\item[x] %s\n\\end{itemize}' % (a, b)
         if r < 0.69:
-            return '\\begin{zzenv}%s\\end{zzenv}' % self.block(depth + 1, dict(ctx, position='unknown-env'))
+            if rng.random() < 0.5:
+                return '\\begin{zzenv}%s\\end{zzenv}' % self.block(depth + 1, dict(ctx, position='unknown-env'))
+            form = rng.choice(['\\begin{center}%s\\end{center}', '\\begin{quote}%s\\end{quote}', '\\begin{abstract}%s\\end{abstract}',
+                               '\\begin{enumerate}\\item %s\\end{enumerate}', '\\begin{tabular}{c}%s\\end{tabular}',
+                               '\\begin{figure}%s\\end{figure}', 'x\\footnote{%s}', '\\section{%s}',
+                               '\\begin{itemize}\\item[%s] y\\end{itemize}'])
+            pos = 'optional-argument' if 'item[' in form else ('known-env' if 'begin' in form else 'argument')
+            # \section upper-cases its title: no formula there (its source would legitimately change case)
+            inner = self.block(depth + 1, dict(ctx, position=pos, noformula=ctx.get('noformula') or 'section' in form))
+            if 'item[' in form:
+                inner = '{' + inner + '}'          # braces protect any ] inside the optional argument
+            return form % inner
         if r < 0.76:
             return '\\alpha' + self.comment(dict(ctx, position='after-macro'))
-        if r < 0.90 and ctx['formula'] is None:
+        if r < 0.90 and ctx['formula'] is None and not ctx.get('noformula'):
             return self.formula(depth, ctx)
         if r < 0.97 and not ctx['discard']:
             return self.discard(depth, ctx)
@@ -161,7 +172,7 @@ class Gen(object):
             r = rng.random()
             if r < 0.25:
                 f += ' ' + self.comment(dctx)
-            elif r < 0.45 and ctx['formula'] is None:
+            elif r < 0.45 and ctx['formula'] is None and not ctx.get('noformula'):
                 f += ' ' + self.formula(depth + 1, dctx)
             fills.append(f)
         return t % tuple(fills)
